@@ -21,6 +21,18 @@ Contracts evaluated on the real functions:
   left_join             streams.left_join.left_join (exhaustion)
   groupby               streams.groupby on tables and chunk streams (fast path first==last key included)
 
+Extended scope (cases with a key "fam"; evaluated first, under a budget of their own; signatures = the signature the same
+failure has in the original scope + ":<class of the name alphabet>"):
+  name families        the same contracts over genomes of 1..5 contigs whose names are (long-names) longer than 8 characters with
+                       8 / 9 / 25 leading characters in common - scaffold1, scaffold2, scaffold10; contig0001, contig0002 -,
+                       (prefix-names) prefixes of each other across the 8 character boundary, (natural-order) short names in natural
+                       order chr2, chr10, chr11 - not the lexicographic order; the unknown and the ignored name share the prefix.
+                       Genomes plain / sort_names / with_ignored_added; all group sequences (4 and 5 contigs: up to 2-3 groups +
+                       every accepted longer one) x {one chunk, singletons, every 2-split}
+  many contigs         genomes chr1..chrN, N = 13 (thorough: 12, 13, 16, 24, 40): every single group, every ordered pair of
+                       contigs / unknown name (jumps back over up to N-1 contigs), ordered triples of positions at the ends and
+                       11-12 contigs from the end, the full genome and rotations of it
+
 Entries are identified by a unique id (start == uid, stop == uid+1, bedgraph value == 2**uid), so any entry that is
 lost, duplicated or handed to another contig is visible in every observer.
 """
@@ -800,15 +812,16 @@ def cases_similarity(thorough, full_upto):
 
 # ----------------------------------------------------------------------------------------------- extended scope: name families
 SMALL_FAMS = ("scaffold", "natural", "nested", "fixedw", "long25")
+ORDER_FAMS = ("scaffold", "natural")  # the two whose genome order is not the lexicographic one from the second contig on
 
 
-def name_plans(seq, Gn, ignored, thorough):
+def name_plans(seq, Gn, ignored, rich=False):
     """-> (groups, chunkings, zip too?) for one group sequence of a name family.  Accepted sequences: all-ones (+ two entries
-    in the first group for <= 2 groups; thorough: plans()) x {one chunk, singletons, every 2-split}: neighbours of the data
+    in the first group for <= 2 groups; rich: plans()) x {one chunk, singletons, every 2-split}: neighbours of the data
     order meet inside one chunk and across a chunk border.  Rejected sequences: one chunk (+ singletons for <= 2 groups)."""
     k = len(seq)
     valid = model(Gn, ignored, seq)[0] == "ok"
-    if thorough:
+    if rich:
         for gi, groups, chs in plans(seq, Gn, ignored, True, 4):
             yield groups, chs, True
         return
@@ -827,47 +840,57 @@ def name_plans(seq, Gn, ignored, thorough):
         yield groups, chs, (valid or k <= 2)
 
 
-def fam_sequences(fam, gcfg, n, thorough):
-    """all sequences of distinct names over genome + unknown (+ ignored); quick tier at 4 contigs: the sequences the genome accepts
-    plus every sequence of <= 2 groups"""
+def fam_maxlen(n, thorough):
+    """group sequences are complete up to this length (None: complete); longer ones: those the genome accepts"""
+    if n <= 3:
+        return None
+    if n == 4:
+        return 3 if thorough else 2
+    return 2
+
+
+def fam_sequences(fam, gcfg, n, maxlen):
+    """all sequences of <= maxlen distinct names over genome + unknown (+ ignored), plus every longer sequence that the genome accepts"""
     _, G, ignored = genome_layout(gcfg, n, fam)
     Gn = [g for g, _ in G]
     uni = universe(gcfg, n, fam)
-    if thorough or n <= 3:
-        maxlen = None if (gcfg == "plain" or n <= 3) else 3
-        return Gn, ignored, list(sequences(uni, maxlen))
-    seqs = list(sequences(uni, 2))
-    for k in range(3, n + 1):
-        seqs.extend(list(c) for c in itertools.combinations(Gn, k))
+    seqs = list(sequences(uni, maxlen))
+    if maxlen is not None:
+        for k in range(maxlen + 1, n + 1):
+            seqs.extend(list(c) for c in itertools.combinations(Gn, k))
     return Gn, ignored, seqs
 
 
 def fams_at(n, thorough):
     """quick tier: every family at 2 and 3 contigs, two of them at 4"""
-    return SMALL_FAMS if (thorough or n <= 3) else ("scaffold", "natural")
+    return SMALL_FAMS if (thorough or n <= 3) else ORDER_FAMS
 
 
 def fam_genomes(fam, thorough):
     if thorough:
-        return [(g, n) for g in ("plain", "sorted", "ignM") for n in (1, 2, 3, 4) if not (g == "sorted" and n == 1)] + [("plain", 5)]
+        out = [("plain", n) for n in (1, 2, 3, 4, 5)] + [("sorted", 2), ("sorted", 3), ("ignM", 2), ("ignM", 3)]
+        if fam in ORDER_FAMS:
+            out += [("sorted", 4), ("ignM", 4)]
+        return out
     out = [("plain", 2), ("plain", 3)]
-    if fam in fams_at(4, thorough):
+    if fam in ORDER_FAMS:
         out += [("plain", 4), ("sorted", 3), ("ignM", 3)]
     return out
 
 
 def cases_fam_iter(thorough):
-    for gcfg_n in itertools.zip_longest(*[[(fam,) + gn for gn in fam_genomes(fam, thorough)] for fam in SMALL_FAMS]):
-        for item in gcfg_n:
+    per_fam = [[(fam,) + gn for gn in fam_genomes(fam, thorough)] for fam in SMALL_FAMS]
+    for row in itertools.zip_longest(*per_fam):
+        for item in row:
             if item is None:
                 continue
             fam, gcfg, n = item
-            Gn, ignored, seqs = fam_sequences(fam, gcfg, n, thorough and n <= 4)
+            Gn, ignored, seqs = fam_sequences(fam, gcfg, n, fam_maxlen(n, thorough) if gcfg == "plain" or n <= 3 else 2)
             for seq in seqs:
-                for groups, chs, zip_too in name_plans(seq, Gn, ignored, thorough and n <= 3):
+                for groups, chs, zip_too in name_plans(seq, Gn, ignored, rich=thorough and n <= 2 and gcfg == "plain"):
                     N = sum(k for _, k in groups)
                     for ci, chunks in enumerate(chs):
-                        for consumer in ("exhaust", "zip") if (zip_too and (thorough or ci == 0)) else ("exhaust",):
+                        for consumer in ("exhaust", "zip") if (zip_too and ci <= (1 if thorough else 0)) else ("exhaust",):
                             yield {"contract": "iter_chromosomes", "fam": fam, "gcfg": gcfg, "n": n, "groups": groups,
                                    "chunks": chunks, "input": "stream", "consumer": consumer}
                     if N > 0 and (thorough or len(groups) <= 2):
@@ -876,36 +899,37 @@ def cases_fam_iter(thorough):
 
 
 def cases_fam_genome_api(thorough):
-    for n in ((2, 3, 4) if thorough else (2, 3)):
-        for gcfg in (("plain", "sorted", "ignM") if thorough else ("plain",)):
-            for fam in (SMALL_FAMS if (thorough or n <= 2) else ("scaffold", "natural", "nested")):
-                Gn, ignored, seqs = fam_sequences(fam, gcfg, n, thorough)
-                for seq in seqs:
-                    if n == 4 and len(seq) > 3 and model(Gn, ignored, seq)[0] != "ok":
-                        continue
-                    for pi, (groups, chs, zip_too) in enumerate(name_plans(seq, Gn, ignored, False)):
-                        N = sum(k for _, k in groups)
-                        for oi, observer in enumerate(("intervals.pileup_data", "track.data", "intervals.compute", "track.sum")):
-                            if oi >= 2 and not thorough and (pi > 0 or len(seq) > 2):
-                                continue
-                            for chunks in (chs if (oi == 0 or (oi == 1 and thorough)) else chs[:2] if oi == 1 else chs[:1]):
-                                yield {"contract": "genome_api", "fam": fam, "gcfg": gcfg, "n": n, "groups": groups,
-                                       "chunks": chunks, "input": "stream", "observer": observer}
-                            if pi == 0 and N > 0 and oi < (2 if thorough else 1) and (thorough or model(Gn, ignored, seq)[0] == "ok"):
-                                yield {"contract": "genome_api", "fam": fam, "gcfg": gcfg, "n": n, "groups": groups,
-                                       "chunks": [N], "input": "file", "observer": observer}
+    plan = [("plain", 2, SMALL_FAMS), ("plain", 3, SMALL_FAMS if thorough else ("scaffold", "natural", "nested"))]
+    if thorough:
+        plan += [("sorted", 3, ORDER_FAMS), ("ignM", 2, SMALL_FAMS), ("plain", 4, ORDER_FAMS)]
+    for gcfg, n, fams in plan:
+        for fam in fams:
+            Gn, ignored, seqs = fam_sequences(fam, gcfg, n, None if n <= 3 else 2)
+            for seq in seqs:
+                ok = model(Gn, ignored, seq)[0] == "ok"
+                for pi, (groups, chs, zip_too) in enumerate(name_plans(seq, Gn, ignored)):
+                    N = sum(k for _, k in groups)
+                    for oi, observer in enumerate(("intervals.pileup_data", "track.data", "intervals.compute", "track.sum")):
+                        if oi >= 2 and (pi > 0 or len(seq) > (3 if thorough else 2)):
+                            continue
+                        for chunks in (chs if oi == 0 else chs[:2] if oi == 1 else chs[:1]):
+                            yield {"contract": "genome_api", "fam": fam, "gcfg": gcfg, "n": n, "groups": groups,
+                                   "chunks": chunks, "input": "stream", "observer": observer}
+                        if pi == 0 and N > 0 and ok and oi < (2 if thorough else 1):
+                            yield {"contract": "genome_api", "fam": fam, "gcfg": gcfg, "n": n, "groups": groups,
+                                   "chunks": [N], "input": "file", "observer": observer}
 
 
 def cases_fam_multistream(thorough):
     for n in ((1, 2, 3, 4, 5) if thorough else (2, 3, 4)):
         for fam in fams_at(n, thorough):
             Gn = fam_names(fam)[:n]
-            _, _, seqs = fam_sequences(fam, "plain", n, thorough and n <= 4)
+            _, _, seqs = fam_sequences(fam, "plain", n, fam_maxlen(n, thorough))
             for seq in seqs:
-                for groups, chs, zip_too in name_plans(seq, Gn, set(), thorough and n <= 3):
+                for groups, chs, zip_too in name_plans(seq, Gn, set(), rich=thorough and n <= 2):
                     N = sum(k for _, k in groups)
                     for ci, chunks in enumerate(chs):
-                        for consumer in ("exhaust", "zip") if (zip_too and (thorough or ci == 0)) else ("exhaust",):
+                        for consumer in ("exhaust", "zip") if (zip_too and ci <= (1 if thorough else 0)) else ("exhaust",):
                             yield {"contract": "multistream", "fam": fam, "n": n, "groups": groups, "chunks": chunks,
                                    "input": "stream", "sizes": ("dict", "chromsize", "seqsizes")[ci % 3], "consumer": consumer}
                     if N > 0 and (thorough or len(groups) <= 2):
@@ -917,9 +941,9 @@ def cases_fam_left_join(thorough):
     for n in ((1, 2, 3, 4, 5) if thorough else (2, 3, 4)):
         for fam in fams_at(n, thorough):
             Gn = fam_names(fam)[:n]
-            _, _, seqs = fam_sequences(fam, "plain", n, thorough and n <= 4)
+            _, _, seqs = fam_sequences(fam, "plain", n, fam_maxlen(n, thorough))
             for seq in seqs:
-                for pi, (groups, chs, zip_too) in enumerate(name_plans(seq, Gn, set(), thorough and n <= 3)):
+                for pi, (groups, chs, zip_too) in enumerate(name_plans(seq, Gn, set(), rich=thorough and n <= 2)):
                     N = sum(k for _, k in groups)
                     if pi == 0:
                         yield {"contract": "left_join", "fam": fam, "n": n, "groups": groups, "chunks": [N] if N else [],
@@ -931,26 +955,26 @@ def cases_fam_left_join(thorough):
 
 
 def cases_fam_groupby(thorough):
-    """thorough: sequences of <= 4 of the 6 names, sizes {1,2}^k (k <= 3), every chunking of N <= 4 entries.  quick: <= 2 of the
-    6 names and 3 of the first 4; all-ones with {table, one chunk, singletons, every 2-split}, one doubled group with
-    {one chunk, every 2-split} on string keys"""
+    """sequences of <= 2 of the 6 names of a family (5 genome names + the unknown one) and of 3 of the first 4 (thorough: 3 of
+    the 6 and 4 of the first 4); all-ones with {table, one chunk, singletons, every 2-split}, one doubled group with
+    {one chunk, every 2-split (<= 2 groups)}; EncodedArray keys: {table, one chunk} (thorough: + singletons)"""
     for maxlen in ((1, 2, 3, 4) if thorough else (1, 2, 3)):
         for fam in SMALL_FAMS:
-            pool = gb_names(fam) if (thorough or maxlen <= 2) else gb_names(fam)[:4]
+            pool = gb_names(fam) if maxlen <= (3 if thorough else 2) else gb_names(fam)[:4]
             for seq in itertools.permutations(pool, maxlen):
-                for gi, groups in enumerate(group_variants(list(seq), maxlen <= (3 if thorough else 2))):
+                for gi, groups in enumerate(group_variants(list(seq), maxlen <= 2)):
                     N = sum(k for _, k in groups)
                     ones = N == len(groups)
-                    if not thorough and not ones and N > len(groups) + 1:
+                    if not ones and N > len(groups) + 1:
                         continue
                     for keys in ("str", "enc") if (thorough or fam in ("scaffold", "nested")) else ("str",):
-                        if thorough:
-                            chs = chunkings(N, 4)
+                        if keys == "enc":
+                            chs = dedupe([[N]] + ([[1] * N] if thorough else [])) if ones else []
                         elif ones:
-                            chs = dedupe([[N], [1] * N] + [[i, N - i] for i in range(1, N)]) if keys == "str" else [[N]]
+                            chs = dedupe([[N], [1] * N] + [[i, N - i] for i in range(1, N)])
                         else:
-                            chs = dedupe([[N]] + [[i, N - i] for i in range(1, N)]) if keys == "str" else []
-                        if thorough or ones:
+                            chs = dedupe([[N]] + ([[i, N - i] for i in range(1, N)] if maxlen <= 2 else []))
+                        if ones:
                             yield {"contract": "groupby", "fam": fam, "groups": groups, "chunks": [N], "input": "table", "keys": keys}
                         for chunks in chs:
                             yield {"contract": "groupby", "fam": fam, "groups": groups, "chunks": chunks, "input": "stream",
@@ -961,7 +985,7 @@ def cases_fam_similarity(thorough):
     if not thorough:
         return
     n = 3
-    for fam in SMALL_FAMS:
+    for fam in ("scaffold", "natural", "nested"):
         Gn = fam_names(fam)[:n]
         fixed = [[Gn[p], 1 + (p % 2)] for p in range(n)]
         for func in ("forbes", "jaccard"):
@@ -972,25 +996,25 @@ def cases_fam_similarity(thorough):
                         continue
                     groups = [[nm, 1] for nm in seq]
                     N = len(seq)
-                    for chunks in ([[N], [1] * N] if N > 1 else [[N]]):
+                    for chunks in ([[N], [1] * N] if (N > 1 and model(Gn, set(), seq)[0] == "ok") else [[N]]):
                         case = {"contract": "similarity", "fam": fam, "func": func, "n": n,
                                 "sizes": "dict" if len(chunks) == 1 else "chromsize"}
                         case[varied + "_groups"], case[varied + "_chunks"], case[varied + "_input"] = groups, chunks, "stream"
-                        case[other + "_groups"], case[other + "_chunks"], case[other + "_input"] = fixed, [sum(k for _, k in fixed)], "stream"
+                        case[other + "_groups"], case[other + "_chunks"] = fixed, [sum(k for _, k in fixed)]
+                        case[other + "_input"] = "stream"
                         yield case
 
 
 # ----------------------------------------------------------------------------------------------- extended scope: many contigs
 def many_positions(n):
-    """positions at the ends of the genome and around a distance of 10 / 11 / 12 / 16 / 32 contigs from either end"""
-    return sorted({p for p in (0, 1, 2, 9, 10, 11, 12, 15, 16, 17, 31, 32, 33, n - 34, n - 33, n - 18, n - 17, n - 13, n - 12, n - 11,
-                               n - 10, n - 3, n - 2, n - 1) if 0 <= p < n})
+    """positions at both ends of the genome and 10 .. 12 contigs away from either end (+ 16/17 and 32/33 for the largest)"""
+    return sorted({p for p in (0, 1, 2, 10, 11, 12, 16, 17, 32, 33, n - 13, n - 12, n - 11, n - 3, n - 2, n - 1) if 0 <= p < n})
 
 
 def many_sequences(n, thorough):
-    """position sequences over a genome of n contigs (n stands for the unknown name): every single group, every ordered pair
-    (n <= 24; boundary positions above), every ordered triple of boundary positions, the full genome, every other contig,
-    the full genome with one contig moved to the end / to the front"""
+    """position sequences over a genome of n contigs (position n stands for the unknown name): every single group, every ordered
+    pair (all positions for n <= 13, the positions above beyond), every ordered triple of 6 (thorough, 13 contigs: 8) of those positions,
+    the full genome, every other contig, the full genome with one contig moved to the end / to the front / replaced"""
     seen = set()
 
     def emit(seq):
@@ -1001,7 +1025,7 @@ def many_sequences(n, thorough):
         return True
 
     B = many_positions(n)
-    P = list(range(n)) if n <= 24 else B
+    P = list(range(n)) if n <= 13 else B
     for i in P + [n]:
         if emit([i]):
             yield [i]
@@ -1010,7 +1034,8 @@ def many_sequences(n, thorough):
     for i, j in pairs:
         if emit([i, j]):
             yield [i, j]
-    T = B if thorough else [p for p in B if p in (0, 1, n - 12, n - 11, n - 2, n - 1)]
+    T = [p for p in B if p in ((0, 1, 2, n - 12, n - 11, n - 3, n - 2, n - 1) if (thorough and n == 13) else
+                               (0, 1, n - 12, n - 11, n - 2, n - 1))]
     for tr in itertools.permutations(T, 3):
         if emit(tr):
             yield list(tr)
@@ -1022,11 +1047,10 @@ def many_sequences(n, thorough):
 
 def cases_many(thorough):
     fam = "many"
-    names = fam_names(fam)
     gens = []
-    for n in ((12, 13, 16, 24, 40) if thorough else (13,)):
-        for gcfg in (("plain", "ignM") if thorough else ("plain",)):
-            gens.append(_cases_many(fam, names, gcfg, n, thorough))
+    for n, gcfg in (((13, "plain"), (12, "plain"), (16, "plain"), (24, "plain"), (40, "plain"), (13, "ignM")) if thorough else
+                    ((13, "plain"),)):
+        gens.append(_cases_many(fam, gcfg, n, thorough))
     while gens:
         for g in list(gens):
             c = next(g, None)
@@ -1036,7 +1060,7 @@ def cases_many(thorough):
                 yield c
 
 
-def _cases_many(fam, names, gcfg, n, thorough):
+def _cases_many(fam, gcfg, n, thorough):
     _, G, ignored = genome_layout(gcfg, n, fam)
     Gn = [g for g, _ in G]
     label = Gn + [fam_unknown(fam)]
@@ -1049,14 +1073,16 @@ def _cases_many(fam, names, gcfg, n, thorough):
         groups = [[nm, 1] for nm in seq]
         N = len(groups)
         valid = model(Gn, ignored, seq)[0] == "ok"
-        chs = dedupe([[N], [1] * N] + ([[N // 2, N - N // 2]] if N > 2 else [])) if (valid or thorough) else [[N]]
+        chs = dedupe([[N], [1] * N] + ([[N // 2, N - N // 2]] if N > 2 else [])) if valid else [[N]]
+        few = len(pseq) == 2  # the pairs are many: one of the two interval observers each; triples: pile-up + one of the others
         for ci, chunks in enumerate(chs):
             for consumer in ("exhaust", "zip") if (thorough or ci == 0) else ("exhaust",):
                 yield {"contract": "iter_chromosomes", "fam": fam, "gcfg": gcfg, "n": n, "groups": groups, "chunks": chunks,
                        "input": "stream", "consumer": consumer}
             for observer in (("intervals.pileup_data",) if ci > 0 else
-                             (("intervals.pileup_data", "intervals.compute")[sum(pseq) % 2],) if (len(pseq) == 2 and not thorough) else
-                             ("intervals.pileup_data", "track.data", "intervals.compute", "track.sum")):
+                             (("intervals.pileup_data", "intervals.compute")[sum(pseq) % 2],) if few else
+                             ("intervals.pileup_data", ("track.data", "intervals.compute", "track.sum")[sum(pseq) % 3])
+                             if len(pseq) == 3 else ("intervals.pileup_data", "track.data", "intervals.compute", "track.sum")):
                 yield {"contract": "genome_api", "fam": fam, "gcfg": gcfg, "n": n, "groups": groups, "chunks": chunks,
                        "input": "stream", "observer": observer}
             if gcfg == "plain":
@@ -1148,7 +1174,10 @@ def run(tier="quick", seed=0):
                     "'_' contig ignored by filter / '_' contig kept) x every sequence of distinct contig groups over genome names + "
                     "unknown name + ignored name (all subsets, all orders) x group sizes in {1,2} x chunkings (all compositions of "
                     "N <= %d entries, boundary chunkings above) x consumers {exhaust, zip with size stream} x observers; then seeded "
-                    "samples with 5 contigs. distinct = distinct (contract, genome, group sequence, sizes, chunking, consumer/observer); "
+                    "samples with 5 contigs; extended scope (first): 5 name families (long names with 8/9/25 characters in common, "
+                    "names that are prefixes of each other, natural-order names) x genomes of 1..5 contigs x group sequences x "
+                    "{one chunk, singletons, 2-splits}, and genomes of 12..40 contigs x singles / ordered pairs / boundary triples / "
+                    "rotations. distinct = distinct (contract, genome, group sequence, sizes, chunking, consumer/observer); "
                     "non-trivial = at least one data group" % (6 if thorough else 4),
                     budget_s=55 if not thorough else 560)
     col.bounds = {"contigs": "1..4 exhaustive (genome API and similarity: 1..%d), 5 sampled" % (4 if thorough else 3),
@@ -1162,7 +1191,12 @@ def run(tier="quick", seed=0):
                   "1|N-2|1}; rejected sequences: {1 chunk, singletons%s}" % (6 if thorough else 4, ", every 2-split" if thorough else ""),
                   "consumers": ["exhaust", "zip(sizes, stream)"], "observers": sorted(OBSERVERS),
                   "inputs": ["NpDataclassStream", "table", "bed/bedgraph file (stream=True)", "table.as_stream()"],
-                  "groupby_keys": ["StringArray", "EncodedArray(StringEncoding)"], "samples": 300 if not thorough else 4000}
+                  "groupby_keys": ["StringArray", "EncodedArray(StringEncoding)"], "samples": 300 if not thorough else 4000,
+                  "extended_name_families": {f: FAMILIES[f]["names"] + [FAMILIES[f]["unknown"], FAMILIES[f]["ign"]] for f in SMALL_FAMS},
+                  "extended_name_family_contigs": "2..4 (4: two families, sequences of <= 2 groups + accepted ones)" if not thorough
+                  else "1..5 (4: sequences of <= 3 groups + accepted ones; 5: <= 2 groups + accepted ones)",
+                  "extended_many_contigs": [13] if not thorough else [12, 13, 16, 24, 40],
+                  "extended_budget_s": 10 if not thorough else 60}
     with TmpDir() as tmp:
         stop = False
         for case in WITNESSES:
